@@ -540,14 +540,68 @@ func c12Run(c *core.Ctx) {
 				bad[v+"0123"[:cut]] = len(v)+cut != 19 && len(v)+cut != 20
 			}
 		}
+		// multi-byte runes in place of as many ASCII characters (same byte length, fewer runes): Unicode decimal digits of
+		// 2, 3, 4 bytes, a letter, a non-digit numeral, invalid bytes — one and two substitutions
+		wide := []string{"é", "\u0662", "\uff12", "\U0001d7d0", "\u2167", "\xff\xfe"}
+		for _, v := range valid {
+			for _, w := range wide {
+				for pos := 0; pos+len(w) <= len(v); pos++ {
+					one := v[:pos] + w + v[pos+len(w):]
+					bad[one] = true
+					for _, w2 := range wide {
+						for p2 := pos + len(w); p2+len(w2) <= len(v) && p2 < 10; p2++ {
+							bad[one[:p2]+w2+one[p2+len(w2):]] = true
+						}
+					}
+				}
+			}
+		}
+		// a valid text followed or preceded by one or two further characters (a converter that validates a prefix only)
+		chars := []string{"0", "f", "z", "g", " ", "\n", "-", "+", "\x00", "é"}
+		for _, v := range valid {
+			for _, a := range chars {
+				bad[v+a], bad[a+v] = true, true
+				for _, b := range chars {
+					bad[v+a+b], bad[a+b+v] = true, true
+				}
+			}
+		}
 		bad[""] = true
+		// a mutation may happen to be a valid text again (a digit in front of a 19-character GUTI): decided by the format
+		// itself — 5 or 6 decimal digits, then 14 hex digits
+		validGuti := func(t string) bool {
+			if len(t) != 19 && len(t) != 20 {
+				return false
+			}
+			for i := 0; i < len(t); i++ {
+				ch := t[i]
+				dec := ch >= '0' && ch <= '9'
+				hexd := dec || (ch >= 'a' && ch <= 'f') || (ch >= 'A' && ch <= 'F')
+				if i < len(t)-14 && !dec || i >= len(t)-14 && !hexd {
+					return false
+				}
+			}
+			return true
+		}
 		for t, isBad := range bad {
+			if isBad && validGuti(t) {
+				continue
+			}
 			if isBad {
 				c12TextExec(c, c12Text{"GutiToNasWithError", t})
 				n++
 			}
 		}
-		for _, t := range []string{"", "a", "ab", "abc", "abcd", "abcde", "abcdeg", "zzzzzz", "ab cd0", "abcdef0", "abcdef01", "éabcde", "-1-1-1"} {
+		amfBad := []string{"", "a", "ab", "abc", "abcd", "abcde", "abcdeg", "zzzzzz", "ab cd0", "abcdef0", "abcdef01", "éabcde", "-1-1-1", "+1+1+1", "0x0102", "ab\u0662cd", "\uff12abc", "\U0001d7d0ab", "ab\xff\xfecd"}
+		for _, v := range []string{"cafe00", "000000", "ffffff", "0a1b2c"} {
+			for _, a := range chars {
+				amfBad = append(amfBad, v+a, a+v)
+				for _, b := range chars {
+					amfBad = append(amfBad, v+a+b, a+b+v, v+a+b+"0123456789")
+				}
+			}
+		}
+		for _, t := range amfBad {
 			c12TextExec(c, c12Text{"AmfIdToNasWithError", t})
 			n++
 		}
